@@ -1,8 +1,12 @@
 ------------------------------ MODULE FxGenMain ------------------------------
 (* root module of E2: evaluates the job list of one property and writes it as ndjson *)
 EXTENDS FxGenT
+(* C08 also compares constant evaluation with run time: more pairs for the four operators, stratified by magnitude *)
+Jobs_C08x == FlatSeq([o \in 1..4 |-> LET op == <<"add", "sub", "mul", "div">>[o] IN
+                <<RandB(op, <<"fx", "fx">>, NR(2500, 40000), Seed + 300 + o, 47), RandB(op, <<"fx", "fx">>, NR(2500, 40000), Seed + 310 + o, 40),
+                  RandB(op, <<"fx", "fx">>, NR(1500, 40000), Seed + 320 + o, 63), RandB(op, <<"fx", "fx">>, NR(1500, 20000), Seed + 330 + o, 33)>>])
 CoreProps == {"C01", "C02", "C03", "C04", "C06", "C13", "C15", "C18"}
-AllJobs(p) == IF p \in CoreProps THEN JobsFor(p) ELSE IF p = "C08" THEN JobsForT("C07") ELSE JobsForT(p)
+AllJobs(p) == IF p \in CoreProps THEN JobsFor(p) ELSE IF p = "C08" THEN JobsForT("C07") \o Jobs_C08x ELSE JobsForT(p)
 ASSUME LET js == AllJobs(IOEnv.FX_PROP) IN
        /\ ndJsonSerialize(IOEnv.FX_JOBS, js)
        /\ PrintT(<<"jobs", IOEnv.FX_PROP, Tier, Len(js)>>)
